@@ -1179,7 +1179,7 @@ footnote * footnote_new(const char * source, token * label, token * content, boo
 					// Trim trailing newlines
 					walker = content->tail;
 
-					while (walker) {
+					while (walker && walker != content) {
 						switch (walker->type) {
 							case TEXT_NL:
 							case TEXT_NL_SP:
